@@ -2,6 +2,7 @@ use crate::engine::PropDef;
 
 pub mod common;
 pub mod c01;
+pub mod c03;
 pub mod c06;
 pub mod c10;
 pub mod c16;
@@ -10,5 +11,5 @@ pub mod c19;
 pub mod c20;
 
 pub fn all() -> Vec<PropDef> {
-    vec![c01::def(), c06::def(), c10::def(), c16::def(), c17::def(), c19::def(), c20::def()]
+    vec![c01::def(), c03::def(), c06::def(), c10::def(), c16::def(), c17::def(), c19::def(), c20::def()]
 }
